@@ -112,7 +112,7 @@ def _chk_by_gene(args, res, old):
             [(g, len(b)) for g, b in got], [(g, len(b)) for g, b in want], names, list(old["arr"].data.index)[:30])
 
 
-contract("cnvlib/cnary.py::CopyNumArray.by_gene", params=dict(arr=ObjT("CopyNumArray")), bounded=True,
+contract("cnvlib/cnary.py::CopyNumArray.by_gene#rt", params=dict(arr=ObjT("CopyNumArray")), bounded=True,
          gen=_gen_by_gene, call=_call_by_gene, props=("C16", "C10"),
          checks=[("each_bin_once_genes_and_gaps", _chk_by_gene)])
 
@@ -370,3 +370,150 @@ contract(
     canaries=[("any_to_all", 'cnarr["weight"].any()', 'cnarr["weight"].all()'),
               ("unweighted", 'np.average(cnarr["log2"], weights=cnarr["weight"])', 'np.average(cnarr["log2"])')],
 )
+
+
+# ----------------------------------------------------------------------------- deductive: by_gene
+# The statement's first sentence, for all tables: under its premise (a named gene's bins are consecutive, interrupted only
+# by ignored-name bins) the generator yields, per chromosome in order, slices that tile rows 0..n-1 without gap or overlap
+# (so every bin is yielded exactly once); a gene's item runs from its first to its last bin and no bin of that gene lies
+# outside it; Antitarget items hold only ignored-name bins.  Assumed: by_chromosome (ghost field `groups`: the
+# per-chromosome tables) and _get_gene_map (ordered mapping name -> ascending rows; one name per bin).  Each invariant
+# declares which other invariants its preservation needs (keeps the queries small and their verdicts stable).
+_GBIN = ObjT("CopyNumArray", data=TabT(index="any", chromosome=CHROM, start=Int, end=Int, gene=GENE, log2=Real), meta=DictT())
+_GARR = ObjT("CopyNumArray", data=TabT(index="any", chromosome=CHROM, start=Int, end=Int, gene=GENE, log2=Real), meta=DictT(),
+             groups=SeqT(TupT(CHROM, _GBIN)))
+
+_T = "self.groups[i][1].data"
+# item j is rows [lo, lo+len) of chromosome i's table, with consecutive row labels starting at lo
+_SLICE = ("(len(out_[j][1].data) >= 1 and 0 <= out_[j][1].data.index[0] and "
+          "out_[j][1].data.index[0] + len(out_[j][1].data) <= len(T) and "
+          "forall(0, len(out_[j][1].data), lambda m: out_[j][1].data.index[m] == out_[j][1].data.index[0] + m and "
+          "out_[j][1].data.start[m] == T.start[out_[j][1].data.index[0] + m] and out_[j][1].data.end[m] == T.end[out_[j][1].data.index[0] + m] and "
+          "out_[j][1].data.gene[m] == T.gene[out_[j][1].data.index[0] + m] and out_[j][1].data.chromosome[m] == T.chromosome[out_[j][1].data.index[0] + m]))"
+          ).replace("T", _T)
+_IGN = "('-', '.', 'CGH', 'Antitarget', 'Background')"
+_LOJ = "out_[j][1].data.index[0]"
+_LENJ = "len(out_[j][1].data)"
+# the items of one chromosome follow each other without gap or overlap, the first starts at row 0, and an item followed by
+# another chromosome's item ends at its table's end; chromosomes come in order
+_TILING = ("forall(0, len(out_), lambda j: implies(j + 1 < len(out_), src_[j][0] <= src_[j + 1][0] and "
+           "ite(src_[j][0] == src_[j + 1][0], out_[j + 1][1].data.index[0] == LOJ + LENJ, "
+           "out_[j + 1][1].data.index[0] == 0 and LOJ + LENJ == len(self.groups[src_[j][0]][1].data))) and "
+           "implies(j == 0, LOJ == 0))").replace("LOJ", _LOJ).replace("LENJ", _LENJ)
+# a gene's item runs from that gene's first to its last bin and no bin of the gene lies outside it; an Antitarget item holds
+# only bins with ignored names
+_LABELS_A = ("forall(0, len(out_), lambda j: implies(out_[j][0] in IGN, out_[j][0] == 'Antitarget' and "
+             "forall(0, len(out_[j][1].data), lambda m: out_[j][1].data.gene[m] in IGN)))").replace("IGN", _IGN)
+_LABELS_G = ("forall(0, len(out_), lambda j: let(lambda i: implies(out_[j][0] not in IGN, "
+             "out_[j][1].data.gene[0] == out_[j][0] and out_[j][1].data.gene[len(out_[j][1].data) - 1] == out_[j][0] and "
+             "forall(0, len(T), lambda p: implies(T.gene[p] == out_[j][0], LOJ <= p and p < LOJ + LENJ))), src_[j][0]))"
+             ).replace("IGN", _IGN).replace("T", _T).replace("LOJ", _LOJ).replace("LENJ", _LENJ)
+# entries of the gene map of the current chromosome's table (what _get_gene_map returned)
+_GM = "local_genemap"
+
+contract(
+    "skgenome/gary.py::GenomicArray._get_gene_map",
+    params=dict(self=_GBIN),
+    returns=SeqT(TupT(GENE, VecT(Int, kind="list"))),
+    trusted=True, requires=[],
+    ensures=[
+        ("entries", "forall(0, len(result), lambda e: len(result[e][1]) >= 1 and forall(0, len(result[e][1]), lambda m: "
+                    "0 <= result[e][1][m] and result[e][1][m] < len(self.data) and self.data.gene[result[e][1][m]] == result[e][0] and "
+                    "forall(0, len(result[e][1]), lambda m2: implies(m < m2, result[e][1][m] < result[e][1][m2]))))"),
+        ("every_row_listed", "forall(0, len(self.data), lambda p: let(lambda e, m: 0 <= e and e < len(result) and 0 <= m and m < len(result[e][1]) and "
+                             "result[e][1][m] == p, uf_int('gm_entry', p), uf_int('gm_pos', p)))"),
+        ("row_between_first_and_last_of_its_gene", "forall(0, len(self.data), lambda p: let(lambda e: result[e][0] == self.data.gene[p] and "
+                                                   "result[e][1][0] <= p and p <= result[e][1][len(result[e][1]) - 1], uf_int('gm_entry', p)))"),
+        ("names_distinct_in_order_of_first_row", "forall(0, len(result), lambda e: forall(0, len(result), lambda e2: implies(e < e2, "
+                                                 "result[e][0] != result[e2][0] and result[e][1][0] < result[e2][1][0])))"),
+    ],
+    props=(), domain="skip",
+    notes="assumed: ordered mapping gene -> ascending row positions of that gene, keys in order of first appearance (names "
+          "without commas: one name per bin)",
+)
+
+# the statement's premise: a named gene's bins are consecutive, possibly interrupted only by ignored-name bins
+_CONSEC = ("forall(0, len(self.groups), lambda i: len(T) >= 1 and forall(0, len(T), lambda p: forall(0, len(T), lambda q: forall(0, len(T), lambda s: "
+           "implies(p < q and q < s and T.gene[p] == T.gene[s] and T.gene[p] not in IGN, T.gene[q] == T.gene[p] or T.gene[q] in IGN)))))"
+           ).replace("T", _T).replace("IGN", _IGN)
+
+contract(
+    "cnvlib/cnary.py::CopyNumArray.by_gene",
+    params=dict(self=_GARR, ignore=Lit(("-", ".", "CGH"))),
+    yields=TupT(GENE, _GBIN),
+    requires=[_CONSEC],
+    loops={
+        0: dict(inv=[("items_are_slices", "forall(0, len(out_), lambda j: let(lambda i: 0 <= i and i < i_ and SLICE, src_[j][0]))".replace("SLICE", _SLICE)),
+                     ("tiling", _TILING),
+                     ("antitarget_items_hold_ignored_names", _LABELS_A),
+                     ("gene_items_span_first_to_last_bin", _LABELS_G),
+                     # no chromosome is skipped: chromosome indices start at 0, step by at most one, and the last item belongs
+                     # to the last chromosome done and reaches that table's end
+                     ("chromosomes_done_are_complete", "ite(len(out_) > 0, let(lambda j: LOJ + LENJ == len(self.groups[src_[j][0]][1].data) and "
+                                                       "src_[j][0] == i_ - 1, len(out_) - 1) and src_[0][0] == 0, i_ == 0) and "
+                                                       "forall(0, len(out_), lambda j: implies(j + 1 < len(out_), src_[j + 1][0] <= src_[j][0] + 1))"
+                                                       .replace("LOJ", _LOJ).replace("LENJ", _LENJ)),
+                     ]),
+        1: dict(inv=[("items_are_slices", "forall(0, len(out_), lambda j: let(lambda i: 0 <= i and i <= i0_ and SLICE, src_[j][0]))".replace("SLICE", _SLICE)),
+                     ("cursor", "0 <= prev_idx and prev_idx <= len(subgary.data) and len(subgary.data) == len(self.groups[i0_][1].data) and "
+                                "forall(0, len(subgary.data), lambda p: subgary.data.index[p] == p and subgary.data.start[p] == self.groups[i0_][1].data.start[p] and "
+                                "subgary.data.end[p] == self.groups[i0_][1].data.end[p] and subgary.data.gene[p] == self.groups[i0_][1].data.gene[p] and "
+                                "subgary.data.chromosome[p] == self.groups[i0_][1].data.chromosome[p])"),
+                     ("tiling", _TILING),
+                     ("antitarget_items_hold_ignored_names", _LABELS_A),
+                     ("gene_items_span_first_to_last_bin", _LABELS_G),
+                     # what was yielded for this chromosome so far covers exactly rows [0, prev_idx)
+                     ("covered_up_to_cursor", "ite(len(out_) > 0 and src_[len(out_) - 1][0] == i0_, "
+                                              "let(lambda j: LOJ + LENJ == prev_idx, len(out_) - 1), "
+                                              "prev_idx == 0 and implies(len(out_) > 0, let(lambda j: src_[j][0] < i0_ and "
+                                              "LOJ + LENJ == len(self.groups[src_[j][0]][1].data), len(out_) - 1)))"
+                                              .replace("LOJ", _LOJ).replace("LENJ", _LENJ)),
+                     ("no_chromosome_skipped", "forall(0, len(out_), lambda j: implies(j + 1 < len(out_), src_[j + 1][0] <= src_[j][0] + 1)) and "
+                                               "ite(len(out_) > 0, src_[0][0] == 0 and src_[len(out_) - 1][0] >= i0_ - 1, i0_ == 0)"),
+                     # rows below the cursor belong to genes already handled, or carry an ignored name
+                     ("handled_below_cursor", "forall(0, len(subgary.data), lambda p: implies(p < prev_idx, uf_int('gm_entry', p) < i_ or "
+                                              "subgary.data.gene[p] in IGN))".replace("IGN", _IGN)),
+                     ("handled_genes_lie_below_cursor", "forall(0, i_, lambda e: implies(iter_[e][0] not in IGN, forall(0, len(iter_[e][1]), lambda m: "
+                                                        "iter_[e][1][m] < prev_idx)))".replace("IGN", _IGN)),
+                     ("iterating_the_gene_map", "forall(0, len(iter_), lambda e: len(iter_[e][1]) >= 1 and forall(0, len(iter_[e][1]), lambda m: "
+                                                "0 <= iter_[e][1][m] and iter_[e][1][m] < len(subgary.data) and subgary.data.gene[iter_[e][1][m]] == iter_[e][0] and "
+                                                "forall(0, len(iter_[e][1]), lambda m2: implies(m < m2, iter_[e][1][m] < iter_[e][1][m2])))) and "
+                                                "forall(0, len(subgary.data), lambda p: let(lambda e, m: 0 <= e and e < len(iter_) and 0 <= m and m < len(iter_[e][1]) and "
+                                                "iter_[e][1][m] == p, uf_int('gm_entry', p), uf_int('gm_pos', p))) and "
+                                                "forall(0, len(iter_), lambda e: forall(0, len(iter_), lambda e2: implies(e < e2, "
+                                                "iter_[e][0] != iter_[e2][0] and iter_[e][1][0] < iter_[e2][1][0]))) and "
+                                                "forall(0, len(subgary.data), lambda p: let(lambda e: iter_[e][0] == subgary.data.gene[p] and "
+                                                "iter_[e][1][0] <= p and p <= iter_[e][1][len(iter_[e][1]) - 1], uf_int('gm_entry', p)))"),
+                     ]),
+    },
+    ensures=[("items_are_slices", "forall(0, len(result), lambda j: let(lambda i: 0 <= i and i < len(self.groups) and SLICE, src_[j][0]))"
+                                  .replace("SLICE", _SLICE.replace("out_", "result"))),
+             # every bin is yielded exactly once: per chromosome the items tile rows 0..len-1 in order
+             ("tiling", _TILING.replace("out_", "result")),
+             # each gene's item is exactly its first-to-last bins; Antitarget items are the stretches of other bins
+             ("antitarget_items_hold_ignored_names", _LABELS_A.replace("out_", "result")),
+             ("gene_items_span_first_to_last_bin", _LABELS_G.replace("out_", "result")),
+             ("all_chromosomes_complete", ("ite(len(result) > 0, let(lambda j: LOJ + LENJ == len(self.groups[src_[j][0]][1].data) and "
+                                           "src_[j][0] == len(self.groups) - 1, len(result) - 1) and src_[0][0] == 0, len(self.groups) == 0) and "
+                                           "forall(0, len(result), lambda j: implies(j + 1 < len(result), src_[j + 1][0] <= src_[j][0] + 1))")
+                                          .replace("LOJ", _LOJ).replace("LENJ", _LENJ).replace("out_", "result")),
+             ],
+    props=("C16",), domain="skip", ghost=dict(eager_triggers=True),
+    canaries=[("last_bin_left_out", "end_idx = gene_idx[-1] + 1", "end_idx = gene_idx[-1]"),
+              ("cursor_not_advanced", "prev_idx = end_idx", "prev_idx = start_idx"),
+              ("telomere_dropped", "if prev_idx < len(subgary):", "if prev_idx < len(subgary) - 1:"),
+              ("intergenic_overlaps_gene", "subgary.data.iloc[prev_idx:start_idx]", "subgary.data.iloc[prev_idx:start_idx + 1]"),
+              ("ignored_names_become_genes", "if gene not in ignore:", "if True:")],
+)
+
+
+def _with_needs(c, loop, needs):
+    out = []
+    for ent in c.loops[loop]["inv"]:
+        out.append((ent[0], ent[1], needs.get(ent[0])))
+    c.loops[loop]["inv"] = out
+
+
+_BYG = CONTRACTS["cnvlib/cnary.py::CopyNumArray.by_gene"]
+_with_needs(_BYG, 1, {'items_are_slices': ['cursor', 'iterating_the_gene_map'], 'cursor': [], 'tiling': ['cursor', 'iterating_the_gene_map', 'covered_up_to_cursor', 'handled_below_cursor'], 'antitarget_items_hold_ignored_names': ['cursor', 'iterating_the_gene_map', 'handled_genes_lie_below_cursor', 'handled_below_cursor'], 'gene_items_span_first_to_last_bin': ['cursor', 'iterating_the_gene_map', 'items_are_slices'], 'covered_up_to_cursor': ['cursor', 'iterating_the_gene_map', 'handled_below_cursor'], 'no_chromosome_skipped': [], 'handled_below_cursor': ['cursor', 'iterating_the_gene_map'], 'handled_genes_lie_below_cursor': ['cursor', 'iterating_the_gene_map', 'handled_below_cursor'], 'iterating_the_gene_map': []})
+_with_needs(_BYG, 0, {'items_are_slices': ['cursor'], 'tiling': ['covered_up_to_cursor', 'cursor'], 'antitarget_items_hold_ignored_names': ['cursor', 'iterating_the_gene_map', 'handled_genes_lie_below_cursor', 'handled_below_cursor'], 'gene_items_span_first_to_last_bin': ['cursor', 'items_are_slices'], 'chromosomes_done_are_complete': ['covered_up_to_cursor', 'no_chromosome_skipped', 'cursor', 'tiling']})
